@@ -278,6 +278,7 @@ impl TimerContext {
             irq_bit_watch: Some(json!(watch)),
             delivered_masks: self.delivered_masks.clone(),
             key_irq_latched: self.key_irq_latched,
+            onk_level: false,
         };
         (timer, interrupts)
     }
